@@ -1,4 +1,5 @@
 import LicenseExpr.Props.C16
+import LicenseExpr.Props.C04
 import LicenseExpr.Model.Spec
 /-!
 # C15 — bundled SPDX and ScanCode tables load and recognise every name
@@ -8,8 +9,8 @@ and that `indexOK` — the decidable instance hypothesis — implies the table i
 `indexOK` holds of the *shipped* index is established on every run by the compiled driver on the
 JSON as Python loads it (the one hypothesis discharged by execution, see DESIGN.md), and the
 recognition of every name of the shipped index is swept exhaustively by the check. The general
-recognition theorem (any name of an `indexOK` index parses to its entry's symbol) is the composition
-`C16_iter` + `C17_leftmost_longest` + `C02_tree`; its statement is `C15_general_statement`.
+recognition theorem (`C15_general`: any stored name of an `indexOK` table, in any letter case and
+spacing, parses to its entry's license and renders as the canonical key) is `C04_alone`.
 -/
 namespace LE
 
@@ -60,13 +61,22 @@ theorem C15_spdx_unknown (idx : List IndexRec) (k : Str) (h : ∀ r ∈ idx, r.s
 theorem C15_indexOK_builds (c : Cls) (T : Table) (h : indexOK c T = true) : tableRefused c T = false := by
   unfold indexOK at h
   simp only [Bool.and_eq_true, Bool.not_eq_true'] at h
-  exact h.1
+  exact h.1.1
 
-/-- the full general statement (not proved here): every name of every entry of an `indexOK` table,
-    in any letter case, parses to that entry's symbol -/
-def C15_general_statement : Prop :=
-  ∀ (c : Cls) (T : Table), indexOK c T = true → ∀ e ∈ T, ∀ n ∈ entryNames c e, ∀ (spelling : Str),
-    wordsOf c spelling = wordsOf c n →
-    parseFull c T false false false spelling = .ok (.atom (.lic ⟨e.key, e.exc⟩))
+/-- **C15 (any index of the same format)**: for every table that passes `indexOK` — in particular every
+    table one of the two loaders builds from an index that passes it — every stored name of every
+    entry (its key; each alias with its blanks collapsed), written in any letter case and with any
+    blanks between its words, parses to that entry's license with the flag of the index, and renders
+    as the canonical key. -/
+theorem C15_general (c : Cls) (hc : ClsOK c) (T : Table) (hok : indexOK c T = true) (e : Entry) (he : e ∈ T)
+    (n : Str) (hn : (n, symVal e) ∈ entryAdds c e) (hw : wordsOf c n ≠ []) (spelling : Str)
+    (hs : wordsOf c spelling = wordsOf c n) :
+    parseFull c T false false false spelling = .ok (.atom (.lic ⟨e.key, e.exc⟩)) ∧
+    renderStr (.atom (.lic ⟨e.key, e.exc⟩)) = e.key := by
+  have hu : namesUniqueB c T = true := by
+    unfold indexOK at hok
+    simp only [Bool.and_eq_true] at hok
+    exact hok.2
+  exact C04_alone c hc T hu e he n hn hw spelling hs
 
 end LE
